@@ -76,7 +76,7 @@ FMT = {
 CLASSES = [1, 2, 3, 4]
 OPCODES = [0, 1, 2, 4, 5, 6]
 RCODES = list(range(12))
-QTYPES = [1, 2, 5, 6, 12, 15, 16, 28, 33, 41, 252, 253, 254, 255, 64, 65, 257]
+QTYPES = [1, 2, 5, 6, 12, 15, 16, 28, 33, 252, 253, 254, 255, 64, 65, 257]
 QCLASSES = [1, 2, 3, 4, 254, 255]
 LABEL_POOL = [b"a", b"b", b"c", b"example", b"org", b"com", b"www", b"mail", b"ns1", b"EXAMPLE", b"Org",
               b"x" * 63, b"\xc3\xa9t\xc3\xa9", b"a.b", b"_sip", b"0"]
